@@ -5,6 +5,7 @@ from collections import Counter
 from ..loader import AnalysisError, attr_path, src, walk_no_nested_defs, norm_stmt, call_name
 from ..symx import show, C, is_const
 from ..genabs import (Game, Poly, Undecided, WrongTile, WrongRowCount, position_cases, model_edges, wrap_column, is_last_row, OWNER, P1, P2, PR, FRESH)
+from . import shared
 
 EXPLANATION = (
     "Abstract bisimulation between the emitted games and a rule model of Roborta, for all board sizes at once: the "
@@ -487,12 +488,13 @@ def manual_counter_rule(ctx, chk, rule="C08.6", modules=("roberta_generator.py",
 
 
 def run(ctx, chk):
+    shared.rule_no_module_state(ctx, chk, "C08.0:state", [ctx.func("roberta_generator.py::write_robots")] + [f_ for f_ in ctx.prog.all_funcs(("stochastic_game_from_roborta_board.py",)) if f_.name == "create_sg_from_board"], "a game file is written")
+    shared.rule_mutable_defaults(ctx, chk, "C08.0:defaults", shared.GENERATOR_MODULES)      # a call must not depend on the calls made before it
     manual_counter_rule(ctx, chk)
     ps = run_pairings(ctx, chk)
     for gname, p in ps.items():
         structure_rules(ctx, chk, p.G, gname, p)
     argument_swap_rule(ctx, chk)
-    from . import shared
     if not shared.identity_on_values(ctx, chk, "C08.5", ("roberta_generator.py", "stochastic_game_from_roborta_board.py")):
         chk.ok("C08.5", "roberta_generator.py", "no identity comparison (`is`) between computed values in the generator")
     from . import C11
